@@ -1,3 +1,416 @@
-/- C06: property theorems (stub — not built yet) -/
+import RSVerif.Model.Filter
+import RSVerif.Lemmas.Filter
+/-
+C06 — Configured filters are honoured identically in every mode and phase.
+Property theorems only (helper lemmas live in RSVerif.Lemmas.Filter).
+
+Model  = RSVerif.Filter       (filter.go and the loop bodies of the four data paths, as coded)
+Spec   = RSVerif.Spec.Filter  (`excluded`, written from the statement / the settings documentation)
+All theorems quantify over ALL keys (arbitrary byte strings), database numbers, command names and
+configurations. Hypotheses, where present, are the start-up guarantees of SanitizeOptions
+(slot entries are numerals) or the range of `KeyToSlot` (< 16384).
+-/
 namespace RSVerif.Properties.C06
+open RSVerif RSVerif.Spec.Filter RSVerif.Filter RSVerif.Lemmas.Filter
+
+/-! ### 0. Ties to the source (re-checked against the regenerated constants on every run) -/
+
+/-- the names `FilterCommands` compares with are the names the specification talks about -/
+theorem source_command_names :
+    cmdAlways = [nOpinfo] ∧ cmdUnderLua = [nEval, nScript, nEvalsha] := by
+  decide
+
+/-- every key of `innerFilterKeys` is one of the tool's checkpoint keys -/
+theorem inner_keys_are_checkpoint_keys : ∀ k ∈ Generated.innerFilterKeys, isCheckpointKey k = true :=
+  inner_keys_checkpoint
+
+/-! ### 1. The four predicates of filter.go are the clauses of the specification -/
+
+theorem filterKey_spec (cfg : Cfg) (key : Bytes) :
+    filterKey cfg key = (isCheckpointKey key || keyExcluded cfg key) := filterKey_eq cfg key
+
+theorem filterDB_spec (cfg : Cfg) (db : Int) : filterDB cfg db = dbExcluded cfg db := filterDB_eq cfg db
+
+theorem filterSlot_spec (cfg : Cfg) (slot : Nat) (hs : slot < 16384) (hv : slotsValid cfg = true) :
+    filterSlot cfg (slot : Int) = slotExcluded cfg slot := filterSlot_eq cfg slot hs hv
+
+private theorem names_lower :
+    nOpinfo.all isLower = true ∧ nEval.all isLower = true ∧ nScript.all isLower = true ∧
+    nEvalsha.all isLower = true ∧ bPublish.all isLower = true := by decide
+
+private theorem names_ascii :
+    isAscii nOpinfo = true ∧ isAscii nEval = true ∧ isAscii nScript = true ∧ isAscii nEvalsha = true := by decide
+
+/-- on ASCII command names, `FilterCommands` = "bookkeeping command, or script command while filter.lua" -/
+theorem filterCommands_spec (cfg : Cfg) (cmd : Bytes) (ha : isAscii cmd = true) :
+    filterCommands cfg cmd = cmdExcluded cfg cmd := by
+  unfold filterCommands filterCommandsOf cmdExcluded internalCmd scriptCmd
+  rw [source_command_names.1, source_command_names.2]
+  simp only [List.any_cons, List.any_nil, Bool.or_false,
+    equalFold_ascii cmd _ ha names_lower.1, equalFold_ascii cmd _ ha names_lower.2.1,
+    equalFold_ascii cmd _ ha names_lower.2.2.1, equalFold_ascii cmd _ ha names_lower.2.2.2.1]
+  cases isName cmd nOpinfo <;> cases cfg.lua <;> cases isName cmd nEval <;> cases isName cmd nScript <;>
+    cases isName cmd nEvalsha <;> rfl
+
+/-- whatever the bytes of `cmd`: a name the specification excludes is excluded by the code -/
+theorem filterCommands_complete (cfg : Cfg) (cmd : Bytes) (h : cmdExcluded cfg cmd = true) :
+    filterCommands cfg cmd = true := by
+  have ha : isAscii cmd = true := by
+    simp only [cmdExcluded, internalCmd, scriptCmd, Bool.or_eq_true, Bool.and_eq_true] at h
+    rcases h with h | ⟨_, (h | h) | h⟩
+    · exact isName_ascii _ _ names_ascii.1 h
+    · exact isName_ascii _ _ names_ascii.2.1 h
+    · exact isName_ascii _ _ names_ascii.2.2.2 h
+    · exact isName_ascii _ _ names_ascii.2.2.1 h
+  rw [filterCommands_spec cfg cmd ha]; exact h
+
+/-! ### 2. `path_agrees`: every path's decision is `excluded` -/
+
+private theorem scriptless (cmd : Bytes) (ha : isAscii cmd = true) :
+    equalFold cmd bPublish = isName cmd bPublish := equalFold_ascii cmd _ ha names_lower.2.2.2.2
+
+/-- Full sync, restore and rump decide `(db, key)` exactly as the specification says — full sync with the
+    additional slot conjunct, rump (and incremental sync) with the checkpoint exception worded as in the
+    statement ("nor by any path once a key filter is configured"). Incremental sync: a single-key command
+    `cmd key rest…` arriving while `db` is selected is forwarded iff neither `(db, key)` nor the command
+    name is excluded. -/
+theorem path_agrees (cfg : Cfg) (slot : Bytes → Nat) (hslot : ∀ k, slot k < 16384)
+    (hv : slotsValid cfg = true) (db : Int) (key : Bytes) :
+    fullSyncDecision cfg slot db key = excludedFullSync cfg db key (slot key)
+    ∧ restoreDecision cfg db key = excluded .restore cfg db key
+    ∧ rumpDecision cfg db key = excluded .rump cfg db key
+    ∧ (∀ (cmd : Bytes) (rest : List Bytes), isAscii cmd = true → cmd ≠ bPing → isName cmd bPublish = false →
+        incrPathDecision cfg db cmd .single (key :: rest) =
+          if excluded .incr cfg db key || cmdExcluded cfg cmd then .drop else .forward) := by
+  refine ⟨?_, ?_, ?_, ?_⟩
+  · unfold fullSyncDecision excludedFullSync excluded checkpointExcluded
+    rw [filterDB_spec, filterKey_spec, filterSlot_spec cfg (slot key) (hslot key) hv]
+    cases dbExcluded cfg db <;> cases isCheckpointKey key <;> cases keyExcluded cfg key <;>
+      cases slotExcluded cfg (slot key) <;> rfl
+  · unfold restoreDecision excluded checkpointExcluded
+    rw [filterDB_spec, filterKey_spec]
+    cases dbExcluded cfg db <;> cases isCheckpointKey key <;> cases keyExcluded cfg key <;> rfl
+  · unfold rumpDecision excluded checkpointExcluded keyFilterOn
+    rw [filterDB_spec, filterKey_spec]
+    simp only [length_ne_zero]
+    unfold keyExcluded
+    cases dbExcluded cfg db <;> cases isCheckpointKey key <;> cases cfg.keyBlack.isEmpty <;>
+      cases cfg.keyWhite.isEmpty <;> cases listed key cfg.keyBlack <;> cases listed key cfg.keyWhite <;> rfl
+  · intro cmd rest ha hping hpub
+    have hp : (cmd != bPing) = true := by simpa using hping
+    simp only [incrPathDecision, incrDecision, incrSelect, handleFilterKey, excluded, checkpointExcluded,
+      keyFilterOn, filterDB_spec, filterKey_spec, filterCommands_spec cfg cmd ha, scriptless cmd ha, hpub,
+      length_eq_zero, keyExcluded]
+    rw [if_pos hp]
+    by_cases h1 : dbExcluded cfg db = true <;> by_cases h2 : isCheckpointKey key = true <;>
+      by_cases h3 : cfg.keyBlack.isEmpty = true <;> by_cases h4 : cfg.keyWhite.isEmpty = true <;>
+      by_cases h5 : listed key cfg.keyBlack = true <;> by_cases h6 : listed key cfg.keyWhite = true <;>
+      by_cases h7 : cmdExcluded cfg cmd = true <;> simp [h1, h2, h3, h4, h5, h6, h7]
+
+/-- "with the same decision for the same key in full sync, incremental sync, restore and rump":
+    without a slot list, and unless the key is a checkpoint key while no key filter is configured (the
+    exception the statement makes), all four paths decide alike. -/
+theorem same_decision (cfg : Cfg) (slot : Bytes → Nat) (hs : cfg.slots = []) (db : Int) (key : Bytes)
+    (hk : keyFilterOn cfg = true ∨ isCheckpointKey key = false) :
+    fullSyncDecision cfg slot db key = restoreDecision cfg db key
+    ∧ restoreDecision cfg db key = rumpDecision cfg db key
+    ∧ (∀ (cmd : Bytes) (rest : List Bytes), isAscii cmd = true → cmd ≠ bPing → isName cmd bPublish = false →
+        cmdExcluded cfg cmd = false →
+        incrPathDecision cfg db cmd .single (key :: rest) =
+          if rumpDecision cfg db key then .drop else .forward) := by
+  have hv : slotsValid cfg = true := by simp [slotsValid, hs]
+  have hslotex : ∀ s, slotExcluded cfg s = false := by intro s; simp [slotExcluded, hs]
+  -- full sync does not look at the slot function when the list is empty, so any bound works
+  have hfull : fullSyncDecision cfg slot db key = excluded .fullSync cfg db key := by
+    unfold fullSyncDecision filterSlot
+    rw [filterDB_spec, filterKey_spec, hs]
+    unfold excluded checkpointExcluded
+    cases dbExcluded cfg db <;> cases isCheckpointKey key <;> cases keyExcluded cfg key <;> rfl
+  obtain ⟨_, hr, hu, hi⟩ := path_agrees cfg (fun _ => 0) (fun _ => by omega) hv db key
+  have hexc : ∀ p, excluded p cfg db key = excluded .restore cfg db key := by
+    intro p
+    unfold excluded checkpointExcluded
+    rcases hk with hk | hk
+    · rw [hk]; cases p <;> simp
+    · rw [hk]; simp
+  refine ⟨?_, ?_, ?_⟩
+  · rw [hfull, hr, hexc]
+  · rw [hr, hu, hexc .rump]
+  · intro cmd rest ha hp hpub hc
+    rw [hi cmd rest ha hp hpub, hu, hc, hexc .incr, hexc .rump]
+    simp
+
+/-! ### 3. Scripts -/
+
+/-- Script commands (`eval`, `evalsha`, `script`, in any letter case) are filtered exactly when
+    `filter.lua` is set — for every byte string that spells one of these names. -/
+theorem lua_iff (cfg : Cfg) (cmd : Bytes) (h : scriptCmd cmd = true) :
+    filterCommands cfg cmd = luaExcluded cfg := by
+  have ha : isAscii cmd = true := by
+    simp only [scriptCmd, Bool.or_eq_true] at h
+    rcases h with (h | h) | h
+    · exact isName_ascii _ _ names_ascii.2.1 h
+    · exact isName_ascii _ _ names_ascii.2.2.2 h
+    · exact isName_ascii _ _ names_ascii.2.2.1 h
+  rw [filterCommands_spec cfg cmd ha]
+  unfold cmdExcluded luaExcluded
+  rw [h]
+  have : internalCmd cmd = false := by
+    -- a script name is not the bookkeeping name
+    simp only [scriptCmd, isName, Bool.or_eq_true, beq_iff_eq] at h
+    simp only [internalCmd, isName]
+    rcases h with (h | h) | h <;> rw [h] <;> decide
+  simp [this]
+
+/-- … and in the incremental stream: in a database that is not excluded, a script command is forwarded
+    iff `filter.lua` is off (script commands have no row in the key table). -/
+theorem lua_cmd_incr (cfg : Cfg) (db : Int) (cmd : Bytes) (args : List Bytes)
+    (h : scriptCmd cmd = true) (hd : dbExcluded cfg db = false) :
+    incrPathDecision cfg db cmd .notInTable args = if cfg.lua then .drop else .forward := by
+  have hl := lua_iff cfg cmd h
+  have ha : isAscii cmd = true := by
+    simp only [scriptCmd, Bool.or_eq_true] at h
+    rcases h with (h | h) | h
+    · exact isName_ascii _ _ names_ascii.2.1 h
+    · exact isName_ascii _ _ names_ascii.2.2.2 h
+    · exact isName_ascii _ _ names_ascii.2.2.1 h
+  have hpub : equalFold cmd bPublish = false := by
+    rw [scriptless cmd ha]
+    simp only [scriptCmd, isName, Bool.or_eq_true, beq_iff_eq] at h
+    simp only [isName]
+    rcases h with (h | h) | h <;> rw [h] <;> decide
+  have hping : (cmd != bPing) = true := by
+    simp only [scriptCmd, isName, Bool.or_eq_true, beq_iff_eq] at h
+    simp only [bne_iff_ne, ne_eq]
+    intro hc
+    rw [hc] at h
+    revert h
+    decide
+  unfold incrPathDecision incrDecision incrSelect handleFilterKey
+  rw [filterDB_spec, hd, hl, hpub, hping]
+  unfold luaExcluded
+  cases cfg.lua <;> cases (cfg.keyWhite.length == 0 && cfg.keyBlack.length == 0) <;> simp
+
+/-- Nothing else is excluded by name: an ASCII command that is neither a script command nor the
+    bookkeeping command passes `FilterCommands` under every configuration. -/
+theorem only_scripts_and_bookkeeping (cfg : Cfg) (cmd : Bytes) (ha : isAscii cmd = true)
+    (h1 : scriptCmd cmd = false) (h2 : internalCmd cmd = false) : filterCommands cfg cmd = false := by
+  rw [filterCommands_spec cfg cmd ha]; simp [cmdExcluded, h1, h2]
+
+/-- EXACT behaviour of a Lua script carried by a snapshot (aux field `lua`): the loader turns it into an
+    entry with key `"lua"`, so it is dropped whenever the pseudo-key `"lua"` in the database current at
+    that point of the file would be dropped — and otherwise exactly when `filter.lua` is set. -/
+theorem lua_aux_exact (cfg : Cfg) (slot : Bytes → Nat) (hslot : ∀ k, slot k < 16384)
+    (hv : slotsValid cfg = true) (db : Int) :
+    luaDecisionFullSync cfg slot db = (excludedFullSync cfg db nLua (slot nLua) || luaExcluded cfg)
+    ∧ luaDecisionRestore cfg db = (excluded .restore cfg db nLua || luaExcluded cfg) := by
+  obtain ⟨hf, hr, _, _⟩ := path_agrees cfg slot hslot hv db nLua
+  unfold luaDecisionFullSync luaDecisionRestore luaExcluded
+  rw [hf, hr]
+  cases excludedFullSync cfg db nLua (slot nLua) <;> cases excluded .restore cfg db nLua <;> cases cfg.lua <;> simp
+
+/-
+FULL STATEMENT (false of the code, deviation D10):
+  ∀ cfg slot db, luaDecisionFullSync cfg slot db = luaExcluded cfg ∧ luaDecisionRestore cfg db = luaExcluded cfg
+"Lua scripts are excluded exactly when filter.lua is set". It fails whenever a key list, a database list
+or a slot list happens to exclude the pseudo-key "lua" (counterexamples below). What is provable:
+-/
+
+/-- With no key list, no slot list and the current database not excluded, a snapshot's Lua scripts are
+    excluded iff `filter.lua`. -/
+theorem lua_iff_partial (cfg : Cfg) (slot : Bytes → Nat) (db : Int)
+    (hk : keyFilterOn cfg = false) (hs : cfg.slots = []) (hd : dbExcluded cfg db = false) :
+    luaDecisionFullSync cfg slot db = luaExcluded cfg ∧ luaDecisionRestore cfg db = luaExcluded cfg := by
+  have hkb : cfg.keyBlack.isEmpty = true ∧ cfg.keyWhite.isEmpty = true := by
+    simpa [keyFilterOn] using hk
+  have hkey : filterKey cfg nLua = false := by
+    rw [filterKey_spec]
+    have : isCheckpointKey nLua = false := by decide
+    simp [this, keyExcluded, hkb.1, hkb.2]
+  unfold luaDecisionFullSync luaDecisionRestore fullSyncDecision restoreDecision filterSlot luaExcluded
+  rw [filterDB_spec, hd, hkey, hs]
+  cases cfg.lua <;> simp
+
+/-- D10, key whitelist: `filter.key.whitelist = user:` and `filter.lua = false` — the scripts are dropped
+    by full sync (whatever `KeyToSlot` is) and by restore, although the specification keeps them. -/
+theorem counterexample_lua_whitelist :
+    let cfg : Cfg := { keyWhite := [[0x75, 0x73, 0x65, 0x72, 0x3a]] }
+    luaExcluded cfg = false ∧ (∀ slot, luaDecisionFullSync cfg slot 0 = true) ∧ luaDecisionRestore cfg 0 = true := by
+  refine ⟨by decide, ?_, by decide⟩
+  intro slot
+  have hk : filterKey { keyWhite := [[0x75, 0x73, 0x65, 0x72, 0x3a]] } nLua = true := by decide
+  have hd : filterDB { keyWhite := [[0x75, 0x73, 0x65, 0x72, 0x3a]] } 0 = false := by decide
+  simp [luaDecisionFullSync, fullSyncDecision, hd, hk]
+
+/-- D10, key blacklist naming a prefix of `lua` (here `l`): same effect. -/
+theorem counterexample_lua_blacklist :
+    let cfg : Cfg := { keyBlack := [[0x6c]] }
+    luaExcluded cfg = false ∧ (∀ slot, luaDecisionFullSync cfg slot 0 = true) ∧ luaDecisionRestore cfg 0 = true := by
+  refine ⟨by decide, ?_, by decide⟩
+  intro slot
+  have hk : filterKey { keyBlack := [[0x6c]] } nLua = true := by decide
+  have hd : filterDB { keyBlack := [[0x6c]] } 0 = false := by decide
+  simp [luaDecisionFullSync, fullSyncDecision, hd, hk]
+
+/-- D10, database list: the scripts follow the last database of the snapshot; with that database
+    blacklisted (here 0) they are dropped although `filter.lua` is off. -/
+theorem counterexample_lua_dbfilter :
+    let cfg : Cfg := { dbBlack := [[0x30]] }
+    luaExcluded cfg = false ∧ (∀ slot, luaDecisionFullSync cfg slot 0 = true) ∧ luaDecisionRestore cfg 0 = true := by
+  refine ⟨by decide, ?_, by decide⟩
+  intro slot
+  have hd : filterDB { dbBlack := [[0x30]] } 0 = true := by decide
+  simp [luaDecisionFullSync, fullSyncDecision, hd]
+
+/-- D10, slot list (full sync only): scripts pass only if the slot of the string `lua` is listed. -/
+theorem counterexample_lua_slotfilter (slot : Bytes → Nat) (h : slot nLua ≠ 1) :
+    let cfg : Cfg := { slots := [[0x31]] }
+    luaExcluded cfg = false ∧ luaDecisionFullSync cfg slot 0 = true := by
+  refine ⟨by decide, ?_⟩
+  have h1 : atoi [0x31] = 1 := by decide
+  have h2 : ((slot nLua : Int) == 1) = false := by
+    simp only [beq_eq_false_iff_ne, ne_eq]; omega
+  have hk : filterKey { slots := [[0x31]] } nLua = false := by decide
+  have hd : filterDB { slots := [[0x31]] } 0 = false := by decide
+  simp only [luaDecisionFullSync, fullSyncDecision, hd, hk, filterSlot, slotLoop, h1, h2]
+  decide
+
+/-! ### 4. Bookkeeping command, checkpoint keys -/
+
+/-- `opinfo` (any letter case) is never forwarded by incremental sync: whatever the configuration, the
+    selected database, the key-table row and the arguments. -/
+theorem opinfo_never (cfg : Cfg) (bypass : Bool) (cmd : Bytes) (ks : KeySpec) (args : List Bytes)
+    (h : internalCmd cmd = true) : incrDecision cfg bypass cmd ks args = .drop := by
+  have hx : cmdExcluded cfg cmd = true := by simp [cmdExcluded, h]
+  have hf := filterCommands_complete cfg cmd hx
+  have hping : (cmd != bPing) = true := by
+    simp only [internalCmd, isName, beq_iff_eq] at h
+    simp only [bne_iff_ne, ne_eq]
+    intro hc
+    rw [hc] at h
+    revert h
+    decide
+  unfold incrDecision
+  rw [hping, hf]
+  simp
+
+/-- The tool's own checkpoint keys (`redis-shake-checkpoint…`) are not copied by full sync or restore
+    under ANY configuration, nor by rump or incremental sync once a key filter is configured. -/
+theorem checkpoint_key_filtered (cfg : Cfg) (slot : Bytes → Nat) (db : Int) (key : Bytes)
+    (h : isCheckpointKey key = true) :
+    fullSyncDecision cfg slot db key = true
+    ∧ restoreDecision cfg db key = true
+    ∧ (keyFilterOn cfg = true →
+        rumpDecision cfg db key = true
+        ∧ ∀ bypass cmd rest, incrDecision cfg bypass cmd .single (key :: rest) = .drop) := by
+  have hk : filterKey cfg key = true := by rw [filterKey_spec, h]; rfl
+  refine ⟨?_, ?_, ?_⟩
+  · unfold fullSyncDecision; rw [hk]; cases filterDB cfg db <;> rfl
+  · unfold restoreDecision; rw [hk]; cases filterDB cfg db <;> rfl
+  · intro hon
+    have hlen : (cfg.keyBlack.length != 0 || cfg.keyWhite.length != 0) = true := by
+      simpa [keyFilterOn, length_ne_zero] using hon
+    have hlen2 : (cfg.keyWhite.length == 0 && cfg.keyBlack.length == 0) = false := by
+      simp only [length_eq_zero]
+      simp only [keyFilterOn, Bool.or_eq_true, Bool.not_eq_eq_eq_not, Bool.not_true] at hon
+      rcases hon with hon | hon <;> simp [hon]
+    refine ⟨?_, ?_⟩
+    · unfold rumpDecision; rw [hk, hlen]; cases filterDB cfg db <;> rfl
+    · intro bypass cmd rest
+      simp only [incrDecision, handleFilterKey, hlen2, hk]
+      by_cases h1 : (cmd != bPing) = true <;> by_cases h2 : bypass = true <;>
+        by_cases h3 : filterCommands cfg cmd = true <;> by_cases h4 : equalFold cmd bPublish = true <;>
+        by_cases h5 : equalFold key bSentinelHello = true <;> simp [h1, h2, h3, h4, h5]
+
+/-! ### 5. What the list clauses mean -/
+
+/-- "starting with a listed prefix": `listed key l` iff `key = p ++ rest` for some listed `p`. -/
+theorem listed_iff_prefix (key : Bytes) (l : List Bytes) :
+    listed key l = true ↔ ∃ p ∈ l, ∃ rest, key = p ++ rest := by
+  simp only [listed, List.any_eq_true, List.isPrefixOf_iff_prefix]
+  constructor
+  · rintro ⟨p, hp, t, ht⟩; exact ⟨p, hp, t, ht.symm⟩
+  · rintro ⟨p, hp, t, ht⟩; exact ⟨p, hp, t, ht.symm⟩
+
+/-- "database lists match database numbers exactly": a list of numerals lists `db` iff `db` is one of
+    the numbers (no prefix, substring or sign confusion: 1 vs 10 vs 11 vs -1). -/
+theorem db_list_numeric (db : Int) (ns : List Int) : dbListed db (ns.map decimal) = ns.contains db := by
+  induction ns with
+  | nil => rfl
+  | cons n ns ih =>
+    simp only [dbListed, List.map_cons, List.any_cons, List.contains_cons] at *
+    rw [ih]
+    by_cases h : n = db
+    · simp [h]
+    · have h1 : (decimal n == decimal db) = false := by
+        simp only [beq_eq_false_iff_ne, ne_eq]; exact fun e => h (decimal_inj _ _ e)
+      have h2 : (db == n) = false := by simp only [beq_eq_false_iff_ne, ne_eq]; exact fun e => h e.symm
+      simp [h1, h2]
+
+/-- for configurations the settings file allows (at most one key list) the as-written precedence IS the
+    plain reading: blacklist ⇒ listed keys out, whitelist ⇒ unlisted keys out -/
+theorem keyExcluded_union (cfg : Cfg) (key : Bytes) (h : cfg.keyBlack = [] ∨ cfg.keyWhite = []) :
+    keyExcluded cfg key = keyExcludedUnion cfg key := by
+  unfold keyExcluded keyExcludedUnion
+  rcases h with h | h <;> rw [h] <;> cases cfg.keyWhite.isEmpty <;> cases cfg.keyBlack.isEmpty <;> simp
+
+/-! ### 6. The command tail of restore mode applies the database bypass only (finding) -/
+
+/-
+FULL STATEMENT (false of the code): the `extra` command tail replayed by restore mode
+(`restoreCommand`, restore.go:237-259) should decide like incremental sync. As coded it consults
+`FilterDB` only; `FilterCommands` and the key filter are never called there.
+-/
+
+/-- what does hold: a command in an excluded database is not forwarded by the tail either -/
+theorem restore_tail_db_partial (cfg : Cfg) (db : Int) (cmd : Bytes) (hp : cmd ≠ bPing)
+    (hd : dbExcluded cfg db = true) : restoreCmdDecision (filterDB cfg db) cmd = true := by
+  have : (cmd != bPing) = true := by simpa using hp
+  rw [filterDB_spec, hd]; simp [restoreCmdDecision, this]
+
+/-- the bookkeeping command IS forwarded by the restore tail (incremental sync drops it: `opinfo_never`) -/
+theorem counterexample_restore_tail_opinfo :
+    restoreCmdDecision false nOpinfo = false ∧ ∀ cfg ks args, incrDecision cfg false nOpinfo ks args = .drop := by
+  refine ⟨by decide, ?_⟩
+  intro cfg ks args
+  exact opinfo_never cfg false nOpinfo ks args (by decide)
+
+/-- … and so are script commands under `filter.lua`, and commands on blacklisted keys -/
+theorem counterexample_restore_tail_lua_and_keys :
+    let cfg : Cfg := { lua := true, keyBlack := [[0x61]] }
+    restoreCmdDecision (filterDB cfg 0) nEval = false
+    ∧ incrPathDecision cfg 0 nEval .notInTable [] = .drop
+    ∧ restoreCmdDecision (filterDB cfg 0) [0x73, 0x65, 0x74] = false
+    ∧ incrPathDecision cfg 0 [0x73, 0x65, 0x74] .single [[0x61, 0x62], [0x31]] = .drop := by
+  decide
+
+/-! ### Non-vacuity: concrete inhabitants of the hypotheses and both outcomes of every decision -/
+
+-- blacklist `ab`: `abc` out, `a` (a proper prefix of the listed prefix) in, empty key in
+example : let cfg : Cfg := { keyBlack := [[0x61, 0x62]] }
+    keyExcluded cfg [0x61, 0x62, 0x63] = true ∧ keyExcluded cfg [0x61] = false ∧ keyExcluded cfg [] = false := by decide
+-- whitelist `ab`: the reverse; an EMPTY listed prefix matches every key
+example : let cfg : Cfg := { keyWhite := [[0x61, 0x62]] }
+    keyExcluded cfg [0x61, 0x62, 0x63] = false ∧ keyExcluded cfg [0x61] = true ∧ keyExcluded cfg [] = true := by decide
+example : keyExcluded { keyBlack := [[]] } [0x7a] = true := by decide
+-- a valid slot configuration with sign and leading zeros; slot 5 listed, 6 not
+example : let cfg : Cfg := { slots := [[0x2b, 0x35], [0x30, 0x30, 0x37]] }
+    slotsValid cfg = true ∧ slotExcluded cfg 5 = false ∧ slotExcluded cfg 7 = false ∧ slotExcluded cfg 6 = true := by decide
+-- db list "1": db 1 listed; 10, 11, -1 not; the entry "01" lists nothing
+example : dbListed 1 [[0x31]] = true ∧ dbListed 10 [[0x31]] = false ∧ dbListed (-1) [[0x31]] = false
+    ∧ dbListed 1 [[0x30, 0x31]] = false := by decide
+-- path_agrees has both outcomes on every path
+example : let cfg : Cfg := { keyBlack := [[0x61]], dbWhite := [[0x30]] }
+    restoreDecision cfg 0 [0x62] = false ∧ restoreDecision cfg 0 [0x61, 0x62] = true ∧ restoreDecision cfg 1 [0x62] = true
+    ∧ rumpDecision cfg 0 [0x62] = false
+    ∧ incrPathDecision cfg 0 [0x73, 0x65, 0x74] .single [[0x62], [0x31]] = .forward
+    ∧ incrPathDecision cfg 0 [0x53, 0x45, 0x54] .single [[0x61], [0x31]] = .drop := by decide
+-- the checkpoint exception: no key filter ⇒ rump copies a checkpoint key, full sync does not
+example : rumpDecision {} 0 Generated.checkpointKey = false ∧ restoreDecision {} 0 Generated.checkpointKey = true
+    ∧ fullSyncDecision {} (fun _ => 0) 0 (Generated.checkpointKey ++ [0x41]) = true := by decide
+-- letter case: `EvAlShA` is a script command; the hypothesis of `lua_iff` is inhabited
+example : scriptCmd [0x45, 0x76, 0x41, 0x6c, 0x53, 0x68, 0x41] = true ∧ internalCmd [0x4f, 0x50, 0x69, 0x6e, 0x66, 0x6f] = true := by decide
+-- beyond ASCII, Go's EqualFold also accepts U+017F for `s` (harmless superset, outside `isAscii`)
+example : filterCommands { lua := true } [0xc5, 0xbf, 0x63, 0x72, 0x69, 0x70, 0x74] = true := by decide
+
 end RSVerif.Properties.C06
